@@ -599,20 +599,25 @@ static void p4_case(uint64_t idx, void *vctx)
     uint32_t *a = malloc(size), *srcb = malloc(size), *ref = malloc(size), *a0 = malloc(size);
     for (size_t i = 0; i < size / 4; i++) { a0[i] = pat(1, i); srcb[i] = pat(0, i + 99); }
     char cfgn[64], cfgn2[64];
-    for (int isblt = 0; isblt < 2 && !vf_failed(); isblt++) {
+    /* isblt 2, 3: a blt inside ONE buffer towards lower addresses (scrolling left by one pixel / left and up): every implementation copies rows front to
+     * back, which is what callers that scroll in place rely on; whatever the common behaviour is, the implementations must share it */
+    for (int isblt = 0; isblt < 4 && !vf_failed(); isblt++) {
+        if (isblt >= 2 && bpp < 8) continue;
         int have_ref = 0, ref_cfg = -1;
         for (int ci = -1; ci < NCFGS && !vf_failed(); ci++) {
             int cfg = ci < 0 ? REF_CFG : CFGS[ci];
             ph_set_cfg(cfg);
             memcpy(a, a0, size);
-            int ret = isblt ? pixman_blt(srcb, a, stride_words, stride_words, bpp, bpp, x / 2, 0, x, 1, w, 2)
+            int ret = isblt == 1 ? pixman_blt(srcb, a, stride_words, stride_words, bpp, bpp, x / 2, 0, x, 1, w, 2)
+                    : isblt == 2 ? pixman_blt(a, a, stride_words, stride_words, bpp, bpp, x + 1, 1, x, 1, w, 2)
+                    : isblt == 3 ? pixman_blt(a, a, stride_words, stride_words, bpp, bpp, x + 3, 2, x, 1, w, 2)
                             : pixman_fill(a, stride_words, bpp, x, 1, w, 2, 0xa5c3e17bu);
             vf_count_libcalls(1);
             if (!ret) {
-                if (memcmp(a, a0, size)) vf_violation("c02-blt-fill-false-but-changed", "%s bpp=%d x=%d w=%d PIXMAN_DISABLE=[%s] returned FALSE but modified the buffer", isblt ? "blt" : "fill", bpp, x, w, ph_cfg_name(cfg, cfgn, sizeof cfgn));
+                if (memcmp(a, a0, size)) vf_violation("c02-blt-fill-false-but-changed", "%s bpp=%d x=%d w=%d PIXMAN_DISABLE=[%s] returned FALSE but modified the buffer", isblt == 0 ? "fill" : isblt == 1 ? "blt" : isblt == 2 ? "blt in place (x+1 -> x)" : "blt in place (x+3,y+1 -> x,y)", bpp, x, w, ph_cfg_name(cfg, cfgn, sizeof cfgn));
             } else if (!have_ref) { memcpy(ref, a, size); have_ref = 1; ref_cfg = cfg; }
             else if (memcmp(a, ref, size))
-                vf_violation("c02-blt-fill-differs", "%s bpp=%d x=%d w=%d: PIXMAN_DISABLE=[%s] and [%s] both report success but leave different buffers", isblt ? "blt" : "fill", bpp, x, w,
+                vf_violation("c02-blt-fill-differs", "%s bpp=%d x=%d w=%d: PIXMAN_DISABLE=[%s] and [%s] both report success but leave different buffers", isblt == 0 ? "fill" : isblt == 1 ? "blt" : isblt == 2 ? "blt in place (x+1 -> x)" : "blt in place (x+3,y+1 -> x,y)", bpp, x, w,
                              ph_cfg_name(cfg, cfgn, sizeof cfgn), ph_cfg_name(ref_cfg, cfgn2, sizeof cfgn2));
         }
         if (!vf_in_confirm) { vf_outcome(vf_hash64(have_ref ? ref : a0, size, (uint64_t)bpp * 7 + isblt)); vf_count_eval(1); if (have_ref && w) vf_count_nontrivial(1); }
